@@ -264,6 +264,7 @@ def to_smt2(hyps, goal, want_axioms=None, extra=(), use_theories=True):
         s.add(h)
     for h in extra:
         s.add(h)
+    goal_index = len(s.assertions())
     s.add(z3.Not(goal))
     lits = _strlits(exprs)
     if len(lits) > 1:
@@ -278,7 +279,7 @@ def to_smt2(hyps, goal, want_axioms=None, extra=(), use_theories=True):
             for f in pow2_instances(ax):
                 pass
             txt = s.to_smt2()
-    return txt
+    return txt + "\n; goal-index=%d\n" % goal_index
 
 
 def _model_dict(m):
@@ -292,6 +293,54 @@ def _model_dict(m):
             except Exception:
                 pass
     return out
+
+
+def _symbols(e):
+    """names of the uninterpreted constants and functions occurring in a formula"""
+    out, stack, seen = set(), [e], set()
+    while stack:
+        t = stack.pop()
+        i = t.get_id()
+        if i in seen:
+            continue
+        seen.add(i)
+        if z3.is_quantifier(t):
+            stack.append(t.body())
+            for k in range(t.num_patterns()):
+                stack.append(t.pattern(k))
+            continue
+        if not z3.is_app(t):
+            continue
+        if t.decl().kind() == z3.Z3_OP_UNINTERPRETED:
+            out.add(t.decl().name())
+        stack.extend(t.children())
+    return out
+
+
+def _components(assertions):
+    """Partition the assertions into groups that share no uninterpreted symbol.  The conjunction is unsatisfiable
+    iff one group is (independent groups have independent models), so hypotheses that cannot matter for the goal
+    (e.g. real arithmetic on a variable the goal never mentions) need not burden the quantifier instantiation."""
+    parent = {}
+
+    def find(x):
+        while parent.setdefault(x, x) != x:
+            parent[x] = parent[parent[x]]
+            x = parent[x]
+        return x
+    syms = []
+    for k, a in enumerate(assertions):
+        sy = _symbols(a)
+        syms.append(sy)
+        root = find(("a", k))
+        for nm in sy:
+            r2 = find(("s", nm))
+            if r2 != root:
+                parent[r2] = root
+    groups = {}
+    for k, a in enumerate(assertions):
+        groups.setdefault(find(("a", k)), []).append(a)
+    return list(groups.values())
 
 
 def solve_one(job):
@@ -320,7 +369,52 @@ def solve_one(job):
     s.set("timeout", int(timeout_ms))
     try:
         s.from_string(txt)
-        r = s.check()
+        r = s.check() if timeout_ms <= 5000 else None
+        if r is None:
+            # a quick attempt on the whole formula, then on its independent parts, then the full budget
+            s.set("timeout", 1000)
+            r = s.check()
+            if r == z3.unknown:
+                asserts = list(s.assertions())
+                groups = _components(asserts)
+                if len(groups) > 1:
+                    gi = None
+                    mark = txt.rfind("; goal-index=")
+                    if mark >= 0:
+                        try:
+                            gi = int(txt[mark + 13:].split()[0])
+                        except ValueError:
+                            gi = None
+                    goal_a = asserts[gi] if gi is not None and gi < len(asserts) else None
+                    goal_sat = None
+                    all_sat, merged = True, {}
+                    # the part holding the negated goal first
+                    groups.sort(key=lambda g: (0 if (goal_a is not None and any(a.eq(goal_a) for a in g)) else 1, len(g)))
+                    for n_g, g in enumerate(groups):
+                        sg = z3.Solver()
+                        sg.set("timeout", max(3000, int(timeout_ms) // 3))
+                        sg.add(*g)
+                        rg = sg.check()
+                        if rg == z3.unsat:
+                            return key, "unsat", "z3", time.time() - t0, None
+                        if rg == z3.sat:
+                            md = _model_dict(sg.model())
+                            merged.update(md or {})
+                            if n_g == 0 and goal_a is not None:
+                                goal_sat = md
+                        else:
+                            all_sat = False
+                    if all_sat:
+                        return key, "sat", "z3", time.time() - t0, merged
+                    if goal_sat is not None:
+                        # the negated goal is satisfiable together with every hypothesis it shares a symbol with, and no
+                        # independent part of the hypotheses is contradictory within the budget: undecided only because
+                        # some independent (quantified) part has no model the solver can construct
+                        return key, "unknown", "z3", time.time() - t0, {
+                            "z3_reason": "negated goal satisfiable with the hypotheses it depends on; an independent quantified part of the path condition is undecided",
+                            "relaxed_model": goal_sat}
+                s.set("timeout", int(timeout_ms))
+                r = s.check()
     except z3.Z3Exception as e:
         return key, "error", "z3", time.time() - t0, {"error": str(e)[:300]}
     if r == z3.unsat:
